@@ -35,7 +35,7 @@ RULE = (
     "rendered to a directory: track.json with permuted key order, optionally operations / challenges / a schedule split into parts pulled in by "
     "{{ rally.collect(parts=...) }} (also nested), index bodies and templates as files, 0-4 scalar values anywhere replaced by "
     "{{ pN | default(v) }} with the value supplied by the user or defaulted, optional --challenge selection. Half of the cases are negative: "
-    "exactly one violation out of 33 kinds (duplicate task/challenge/corpus/operation, no/two default challenges, iterations mixed with time "
+    "exactly one violation out of 40 kinds (duplicate task/challenge/corpus/operation, no/two default challenges, iterations mixed with time "
     "periods directly or through parallel defaults, four ramp-up rules, unknown / ambiguous completed-by, indices with data streams, unused / "
     "reserved track parameter, missing mandatory elements, 16 schema violations). Non-trivial = positive case with a parallel element of which a "
     "task inherits >= 1 default and >= 1 Jinja parameter in use; negative case whose violation was applied. Distinct = distinct canonical JSON."
@@ -60,6 +60,7 @@ REJECTIONS = (loader.TrackSyntaxError, exceptions.InvalidSyntax, exceptions.Trac
 NEEDS = {
     "dup-task": {"two_leaves": True},
     "dup-task-default-name": {"two_leaves": True},
+    "dup-task-within-one-parallel": {"parallel": True},
     "dup-challenge": {"challenges": 2},
     "dup-corpus": {"corpora": 2},
     "dup-operation": {"ref_ops": True},
@@ -234,6 +235,24 @@ def apply_violation(doc, user_params, v, model):
         for p, t in ((par1, first), (par2, second)):
             if p is not None and p.get("completed-by") == old_names[id(t)]:
                 p["completed-by"] = _name_of(t)
+    elif kind == "dup-task-within-one-parallel":
+        # both copies of the name sit in the same parallel element; no completed-by refers to it (that would be another rule)
+        p = _first_parallel(ch["schedule"])
+        if len(p["tasks"]) < 2:
+            p["tasks"].append(copy.deepcopy(p["tasks"][0]))
+            p["tasks"][1]["name"] = _name_of(p["tasks"][0]) + "-twin"
+        first = p["tasks"][a % len(p["tasks"])]
+        second = p["tasks"][(a + 1 + b % (len(p["tasks"]) - 1)) % len(p["tasks"])]
+        if b % 2:
+            second["name"] = _name_of(first)
+        else:
+            first.pop("name", None)
+            second.pop("name", None)
+            second["operation"] = copy.deepcopy(first["operation"])
+        if p.get("completed-by") not in (None, "any") and p["completed-by"] not in [_name_of(t) for t in p["tasks"] if t is not first and t is not second]:
+            p.pop("completed-by")
+        if "clients" in p:
+            p.pop("clients")
     elif kind == "dup-challenge":
         doc["challenges"][1 + a % (len(doc["challenges"]) - 1)]["name"] = doc["challenges"][0]["name"]
     elif kind == "dup-corpus":
